@@ -19,6 +19,7 @@ type SolveResult struct {
 	Model   string
 	Raw     string
 	Second  string // confirming solver (thorough tier)
+	Candidate bool // model obtained without the quantified axioms
 }
 
 type solverSpec struct {
@@ -35,7 +36,7 @@ var solvers = []solverSpec{
 }
 
 // Script renders the obligation as a standalone SMT-LIB2 script.
-func (o *Obligation) Script(forCVC5 bool) string {
+func (o *Obligation) Script(noQuant bool) string {
 	x := o.Unit
 	var b strings.Builder
 	b.WriteString("; obligation " + o.Name + "\n")
@@ -48,7 +49,7 @@ func (o *Obligation) Script(forCVC5 bool) string {
 		b.WriteString(fmt.Sprintf("(declare-const %s Str)\n", x.u.strLits[s]))
 	}
 	for i, a := range x.u.axioms {
-		if o.WantSat && strings.Contains(a, "(forall ") {
+		if (o.WantSat || noQuant) && strings.Contains(a, "(forall ") {
 			continue // reachability canaries are decided without the quantified background axioms
 		}
 		b.WriteString(fmt.Sprintf("(assert (! %s :named ax_%d))\n", a, i))
@@ -61,7 +62,7 @@ func (o *Obligation) Script(forCVC5 bool) string {
 		b.WriteByte('\n')
 	}
 	for _, f := range x.facts[:o.NFacts] {
-		if o.WantSat && strings.Contains(f, "(forall ") {
+		if (o.WantSat || noQuant) && strings.Contains(f, "(forall ") {
 			continue
 		}
 		b.WriteString("(assert " + f + ")\n")
@@ -182,8 +183,21 @@ func solveObligation(o *Obligation, dir string, timeout time.Duration, confirm b
 		winner = &best
 	}
 	o.Result = winner
-	if winner.Status == "unsat" && !o.WantSat || winner.Status == "sat" && o.WantSat {
+	if (winner.Status == "unsat" && !o.WantSat || winner.Status == "sat" && o.WantSat) && os.Getenv("GOVC_KEEP") == "" {
 		os.Remove(file)
+	}
+	if !o.WantSat && (winner.Status == "unknown" || winner.Status == "timeout") {
+		// look for a candidate counterexample with the quantified background dropped
+		f2 := filepath.Join(dir, sanitizeFile(o.Name)+".noquant.smt2")
+		if os.WriteFile(f2, []byte(o.Script(true)), 0o644) == nil {
+			r := runSolver(context.Background(), solvers[0], f2, 5*time.Second)
+			if r.Status == "sat" {
+				winner.Model = r.Model
+				winner.Raw += "\n[candidate counterexample found with quantified axioms dropped; it may violate them]"
+				winner.Candidate = true
+			}
+			os.Remove(f2)
+		}
 	}
 }
 
